@@ -10,7 +10,7 @@ RULE = ("complete shape grid T in [W,W+40], W in [1,12], N in [1,6] (2952 shapes
         "(rows overlap) or a multi-series tuple with >=2 series")
 ASSUMPTIONS = ["reference: numpy sliding_window_view; float64 compared through uint64 views"]
 SHARD_TIMEOUT = {"quick": 300, "thorough": 3000}
-FILLS = ["random", "inf", "negzero", "nanpayload", "denormal", "int", "float32", "mixed"]
+FILLS = ["random", "inf", "negzero", "nanpayload", "denormal", "int", "float32", "mixed", "colslice", "rowstep"]
 
 
 def plan(tier, seed):
@@ -46,6 +46,12 @@ def fill(rng, T, N, kind):
         x = rng.integers(-1000, 1000, size=(T, N))
     elif kind == "float32":
         x = x.astype(np.float32)
+    elif kind == "colslice":
+        wide = rng.normal(size=(T, N + 3))
+        x = wide[:, :N]                       # dense rows, but the next row is N+3 items away
+    elif kind == "rowstep":
+        tall = rng.normal(size=(2 * T, N))
+        x = tall[::2]                         # unit column stride, every second row
     elif kind == "mixed":
         x[rng.random((T, N)) < 0.1] = np.nan
         x[rng.random((T, N)) < 0.1] = -0.0
